@@ -151,6 +151,44 @@ Example C07_nonvacuous_history :
   v_corr (d_shift_hist [VS "20/1048575/3/20/-7"; VZ 0; VZ 0; VZ 0; p] (VS "20/1048575/3/20/-7")) = true.
 Proof. vm_compute. repeat split; reflexivity. Qed.
 
+(* (9) the run-time entries are TOTAL: on well-shaped arguments (a string and integers; for the history entries a well-formed prelude) the
+   verdict's class is never "bad-case" (which the runner reports as "the model cannot process this case"), whatever was observed — it is
+   "-" (judged) or "skipped".  IDs that parse but are not valid (index outside the grid, any accepted spelling, huge vertical shifts) are
+   judged from the wrapped voxel as long as 0 <= hZoom <= 35, all sums are int64 and x+dx, y+dy <= 2^53; the rest is class "skipped". *)
+Theorem C07_model_never_bad_case : forall id dx dy dv b1 b2 b3 p obs, prelude_ok p = true ->
+  v_class (d_shift [VS id; VZ dx; VZ dy; VZ dv] obs) <> "bad-case"%string /\
+  v_class (d_shift_laws [VS id; VZ dx; VZ dy; VZ dv; VZ b1; VZ b2; VZ b3] obs) <> "bad-case"%string /\
+  v_class (d_shift_hist [VS id; VZ dx; VZ dy; VZ dv; p] obs) <> "bad-case"%string /\
+  v_class (d_shift_laws_hist [VS id; VZ dx; VZ dy; VZ dv; VZ b1; VZ b2; VZ b3; p] obs) <> "bad-case"%string.
+Proof. exact table_C07_never_bad_case. Qed.
+Print Assumptions C07_model_never_bad_case.
+(* "skipped" is no silent pass of the quantifier: it is answered only when the domain predicate recomputed from the arguments fails or the
+   twin itself refuses (fuel), and a valid ID with int64 sums inside the proved range of the float layer is always judged *)
+Theorem C07_skipped_only_outside_domain : forall id dx dy dv obs, v_class (d_shift [VS id; VZ dx; VZ dy; VZ dv] obs) = "skipped"%string ->
+  call_dom id dx dy dv = false \/ shift_api_f id dx dy dv = None.
+Proof. exact d_shift_skipped_only_outside. Qed.
+Print Assumptions C07_skipped_only_outside_domain.
+Theorem C07_quantifier_always_judged : forall i dx dy dv obs, valid i -> dom_shift i dx dy dv = true ->
+  - 4094 * 2 ^ eh i <= ex i + dx <= 2 ^ 53 -> - 4094 * 2 ^ eh i <= ey i + dy <= 2 ^ 53 ->
+  v_class (d_shift [VS (print_eid i); VZ dx; VZ dy; VZ dv] obs) = "-"%string.
+Proof. exact d_shift_judged_on_quantifier. Qed.
+Print Assumptions C07_quantifier_always_judged.
+(* non-vacuity of (9): the two inputs of the thorough run that used to be answered bad-case are judged and pass with what the library
+   returned; a wrong answer on them fails; hZoom 36 and "-1/0/0/0/0" are skipped *)
+Example C07_nonvacuous_total :
+  d_shift_hist [VS "04/8589934592/3465613031/2/3"; VZ (-4); VZ 3; VZ (-8034046870170525263);
+                VL [VL [VS "ResetExtendedSpatialID"; VS "23/4194303/859179/7/127"]]] (VS "4/12/10/2/-8034046870170525260")
+    = mkv true true "-" (VS "4/12/10/2/-8034046870170525260") /\
+  (let v := d_shift_laws [VS "11/1674/1416/04/-9551091870"; VZ 2; VZ 2; VZ 250159807095; VZ (-6); VZ (-2); VZ 251378831283]
+              (VL [VS "11/1676/1418/4/240608715225"; VS "11/1670/1416/4/491987546508"; VS "11/1670/1416/4/491987546508";
+                   VS "11/1674/1416/4/-9551091870"; VS "11/1674/1416/4/-9551091870"]) in
+   (v_corr v, v_prop v, v_class v) = (true, true, "-")) /\
+  v_prop (d_shift [VS "04/8589934592/3465613031/2/3"; VZ (-4); VZ 3; VZ 0] (VS "4/8589934588/3465613034/2/3")) = false /\
+  v_class (d_shift [VS "36/0/0/0/0"; VZ 1; VZ 0; VZ 0] (VS "36/1/0/0/0")) = "skipped" /\
+  v_class (d_shift [VS "-1/0/0/0/0"; VZ (-1); VZ 0; VZ 0] VTimeout) = "skipped" /\
+  v_class (d_shift [VS "4/0/0/4/0"; VZ 1; VZ 0; VZ 0] VPanic) = "-" /\ v_prop (d_shift [VS "4/0/0/4/0"; VZ 1; VZ 0; VZ 0] VPanic) = false.
+Proof. vm_compute. repeat split; reflexivity. Qed.
+
 (* non-vacuity: a concrete valid ID at the grid edge wraps (both models), a multi-lap negative shift goes through the loop,
    compose / inverse hypotheses are satisfiable at the int64 boundary *)
 Example C07_nonvacuous : valid (mk 3 7 0 4 (-16)) /\ shift_api "3/7/0/4/-16" 2 (-1) 5 = "3/1/7/4/-11"%string /\
